@@ -164,7 +164,7 @@ func main() {
 }
 
 // properties whose rules rely on write-effect classification at the storage boundary
-var effectProps = map[string]bool{"C02": true, "C04": true, "C06": true, "C07": true, "C09": true, "C11": true, "C14": true, "C15": true, "C17": true}
+var effectProps = map[string]bool{"C01": true, "C02": true, "C04": true, "C06": true, "C07": true, "C09": true, "C11": true, "C14": true, "C15": true, "C17": true}
 
 func runProperty(w *World, id, tier string) (c *Ctx) {
 	pr := registry[id]
